@@ -1646,6 +1646,18 @@ def replay(ctx, data):
         except Exception as e:
             print("model unavailable:", e)
         return not scan_spec_violated(s, terms)
+    if kind == "spec-twin":
+        # the Lean specification and its Python twin disagreed on where the first top-level terminator is
+        s, terms = case["input"], case["terms"]
+        pq = py_spec(terms, s)
+        print("python twin:", pq)
+        try:
+            o = ctx.driver().ask("pipe ftl %d %s" % (1 if "|" in terms else 0, enc(s)))
+            print("lean spec  :", o)
+            return o == ("none" if pq is None else str(pq))
+        except Exception as e:
+            print("model unavailable:", e)
+            return False
     if kind == "argentry":
         ok, out = arg_entry_holds(case["input"])
         print("written    :", case["input"])
